@@ -29,6 +29,8 @@ NEXT Next
 CONSTANTS
   TreeCodes = {trees}
   ValueCodes = {values}
+  Value3Codes = {values3}
+  V3TreeCodes = {v3trees}
   DegTreeCodes = {deg}
   NegAxes = 4
   AxisHi = 3
@@ -45,7 +47,7 @@ CHECK_DEADLOCK FALSE
 """
 
 DIMS = (1, 2, 3)
-# 9 primes for the values (at most 3x3 entries), the following ones for the inputs
+# 27 primes for the values (at most 3x3x3 entries), the following ones for the inputs
 _PRIMES: list[int] = []
 
 
@@ -72,6 +74,9 @@ def shapes(rank: int, dims=DIMS) -> list[tuple]:
     return list(itertools.product(dims, repeat=rank))
 
 
+VALUES3 = ((2, 2, 2), (2, 3, 2), (1, 2, 3), (2, 1, 3), (3, 2, 1), (3, 3, 3))
+
+
 def full_domain() -> dict:
     """The bounded domain of the check (thorough tier)."""
     singles = [(s,) for r in (1, 2, 3) for s in shapes(r)]
@@ -92,7 +97,14 @@ def full_domain() -> dict:
     pairs += [((1, 3), (2, 1, 3)), ((3, 2, 1), (3, 2)), ((1,), (1, 1))]
     values = [s for r in (1, 2) for s in shapes(r)]
     deg = [((3,),), ((2,), (3, 2))]
-    return {'singles': singles, 'pairs': sorted(set(pairs)), 'values': values, 'deg': deg}
+    pairs = sorted(set(pairs))
+    # values of rank 3 (every ordered triple of distinct axes: sorted, swapped and cyclic orders):
+    # a family of shapes, on every single leaf and on a few two-leaf structures
+    pairs3 = [((2,), (3, 2)), ((2, 2), (2, 2, 2)), ((2, 3, 2), (3, 2)), ((3,), (1, 2, 3)), ((1, 3), (2, 1, 3)),
+              ((3, 2, 1), (3, 2)), ((2,), (2, 3, 2)), ((3, 3), (3, 3, 3))]
+    assert all(t in pairs for t in pairs3)
+    return {'singles': singles, 'pairs': pairs, 'values': values, 'deg': deg,
+            'values3': list(VALUES3), 'v3trees': singles + pairs3}
 
 
 def domain(tier: str, seed: int) -> tuple[dict, bool]:
@@ -106,7 +118,16 @@ def domain(tier: str, seed: int) -> tuple[dict, bool]:
     pick3 = rng.sample(asym, 2) + rng.sample([t for t in r3 if t not in asym], 1)
     deg2 = [t for t in full['deg'] if len(t) == 2]
     pairs = rng.sample([t for t in full['pairs'] if t not in deg2], 3) + deg2
-    return {'singles': low + pick3, 'pairs': pairs, 'values': full['values'], 'deg': full['deg']}, False
+    # values of rank 3 in quick: the cube, one seeded shape with different extents, one with a unit extent,
+    # on a leaf of each rank (the rank-3 one with different extents) and one two-leaf structure
+    v3 = [(2, 2, 2), rng.choice([(2, 3, 2), (3, 3, 3)]), rng.choice([(1, 2, 3), (2, 1, 3), (3, 2, 1)])]
+    p3 = rng.choice([t for t in full['v3trees'] if len(t) == 2])
+    if p3 not in pairs:
+        pairs.append(p3)
+    v3trees = [((3,),), rng.choice([((2, 3),), ((3, 2),), ((2, 2),)]), pick3[0], ((2, 2, 2),), p3]
+    singles = low + pick3 + [t for t in v3trees if len(t) == 1 and t not in low + pick3]
+    return {'singles': singles, 'pairs': pairs, 'values': full['values'], 'deg': full['deg'],
+            'values3': v3, 'v3trees': v3trees}, False
 
 
 def tla_set(xs) -> str:
@@ -123,6 +144,8 @@ def generate(dom: dict, nshards: int = 2, workers: int = 3) -> fx.TlcResult:
     def cfg(i: int) -> str:
         return CFG.format(trees=tla_set(tree_code(t) for t in shards[i]),
                           values=tla_set(shape_code(v) for v in dom['values']),
+                          values3=tla_set(shape_code(v) for v in dom['values3']),
+                          v3trees=tla_set(tree_code(t) for t in dom['v3trees'] if t in shards[i]),
                           deg=tla_set(tree_code(t) for t in dom['deg'] if t in shards[i]))
 
     res = fx.run_tlc_sharded('MC_Diagonal', cfg, len(shards), workers=workers, parallel=len(shards))
@@ -144,6 +167,21 @@ def key_of(case: dict) -> str:
     return f"{cls}:leaves={leaves}:values={vals}:axes={axes_of(case)}"
 
 
+def order_class(case: dict) -> str:
+    """Order of an explicit tuple of axes after the per-leaf normalisation: 'sorted', 'swap' (an
+    involution: the permutation equals its inverse) or 'cyclic' (not an involution: ranks and argsort
+    differ); the least symmetric class over the leaves; 'dup' if some leaf sees a duplicate."""
+    worst = 0
+    for s in case['leaves']:
+        n = [a + len(s) if a < 0 else a for a in case['t']]
+        if len(set(n)) < len(n):
+            return 'dup'
+        rank = [sorted(n).index(a) for a in n]
+        inv = [rank.index(k) for k in range(len(n))]
+        worst = max(worst, 0 if rank == sorted(rank) else (1 if rank == inv else 2))
+    return ('sorted', 'swap', 'cyclic')[worst]
+
+
 def stratum(case: dict) -> str:
     m = len(case['vsh'])
     if len(case['leaves']) == 1:
@@ -153,6 +191,8 @@ def stratum(case: dict) -> str:
         rel = 'pair'
     if case['scalar']:
         form = 's-' if case['a'] < 0 else 's+'
+    elif m == 3:
+        form = f"t3:{order_class(case)}:neg{sum(a < 0 for a in case['t'])}"
     else:
         form = 't' + ''.join('-' if a < 0 else '+' for a in case['t'])
     if case['err']:
@@ -257,7 +297,7 @@ def execute(case: dict) -> dict:
     nv = int(np.prod(vsh)) if vsh else 1
     vals = case['vals'] if not case['vtree'] else primes(nv)
     nx = sum(int(np.prod(s)) for s in leaves)
-    xprimes = primes(9 + nx)[9:]
+    xprimes = primes(27 + nx)[27:]
     xflats, off = [], 0
     for s in leaves:
         n = int(np.prod(s))
@@ -420,6 +460,15 @@ def _judge(cases: list[dict], results: list[dict], verd: fx.Verdicts) -> dict:
     return stats
 
 
+def _order_counts(cases: list[dict]) -> dict:
+    out: dict[str, int] = {}
+    for c in cases:
+        if len(c['vsh']) == 3 and not c['scalar']:
+            k = order_class(c) + (':accepted' if not c['err'] else ':rejected')
+            out[k] = out.get(k, 0) + 1
+    return out
+
+
 def run(tier: str, seed: int) -> int:
     t0 = time.time()
     verd = fx.Verdicts(PROP)
@@ -431,10 +480,14 @@ def run(tier: str, seed: int) -> int:
     if len({c['id'] for c in cases}) != len(cases):
         raise fx.MachineryError('duplicate configurations emitted by TLC')
     if tier == 'quick':
-        picked, strata = fx.stratified_sample(cases, stratum, 3, seed)
+        picked, strata = fx.stratified_sample([c for c in cases if len(c['vsh']) < 3], stratum, 3, seed)
         if len(picked) > 1000:
             picked = random.Random(seed).sample(picked, 1000)
-        nstrata = len(strata)
+        # values of rank 3: every stratum (order class x rank relation x signs x outcome x class) is
+        # replayed, so cyclic orders always are
+        picked3, strata3 = fx.stratified_sample([c for c in cases if len(c['vsh']) == 3], stratum, 2, seed)
+        picked += picked3
+        nstrata = len(strata) + len(strata3)
     else:
         picked, nstrata = cases, len({stratum(c) for c in cases})
     picked.sort(key=sort_key)
@@ -467,13 +520,18 @@ def run(tier: str, seed: int) -> int:
         'rule': 'cases = every configuration (input structure of one or two leaves x values shape x axis '
                 'specification: each int in -4..3 and each tuple over -4..3 of the right length x class) of the '
                 'bounded domain, enumerated by TLC; replayed = all (thorough) or a seeded sample stratified by '
-                '(rank relation, form and signs of the axes, predicted outcome, class) (quick); non-trivial = '
+                '(rank relation, form and signs of the axes - for triples: sorted / swap / cyclic order class -, predicted outcome, class) (quick); non-trivial = '
                 'accepted by the specification, or rejected for duplicate / non-broadcastable / shape-changing '
                 'axes (not the scalar / pytree rejections); distinct by canonical JSON of the configuration',
         'exhaustive': bool(full and len(picked) == len(cases)),
         'emitted_cases': len(cases), 'replayed': len(picked), 'strata': nstrata,
         'domain': {'single_leaf_structures': len(dom['singles']), 'two_leaf_structures': len(dom['pairs']),
-                   'values_shapes': len(dom['values']), 'axes': 'ints -4..3, tuples over -4..3',
+                   'values_shapes': len(dom['values']), 'values_shapes_rank3': [list(v) for v in dom['values3']],
+                   'structures_with_rank3_values': len(dom['v3trees']),
+                   'rank3_cases': {'emitted': sum(len(c['vsh']) == 3 for c in cases),
+                                   'replayed': sum(len(c['vsh']) == 3 for c in picked),
+                                   'replayed_by_order_class': _order_counts(picked)},
+                   'axes': 'ints -4..3, tuples over -4..3 (rank 3: ordered triples of distinct axes)',
                    'complete_bounded_domain': full},
         'predicted_outcomes': by_class,
         'clauses_checked': stats['checked'],
@@ -483,7 +541,7 @@ def run(tier: str, seed: int) -> int:
                                         'StrictIsDiagonal', 'DenseAgrees', 'MoorePenrose']},
         'samples': samples,
     }, [
-        'extents 1..3, leaf rank 1..3, values rank 1..2 (0 for the rejection of scalars), float32 leaves and values',
+        'extents 1..3, leaf rank 1..3, values rank 1..2 (all shapes) and rank 3 (a family of shapes, ordered triples of distinct axes), rank 0 for the rejection of scalars; float32 leaves and values',
         'jnp.moveaxis / jnp.broadcast_shapes / reshape are transcribed from their documented NumPy algorithms',
         'products of two distinct primes < 2^24 are exact in float32, so every output entry identifies its operands',
         'any exception class raised by the constructor counts as a rejection',
